@@ -67,4 +67,6 @@ let () = run_protocol (fun case impl ->
   let kind = case.[0] in
   let ops = parse_ops (String.sub case 2 (String.length case - 2)) in
   let r = if kind = 'M' then mem_outputs ops else file_outputs ops in
-  (string_of_outs r, c26_ok ops (parse_outs ops impl), c26_ok ops r))
+  (* the file persister enforces the documented maximum record length (oracle on clip ops) *)
+  let ok = if kind = 'M' then c26_ok ops else c26_ok_file ops in
+  (string_of_outs r, ok (parse_outs ops impl), ok r))
